@@ -2,8 +2,10 @@ SPECIFICATION Spec
 CONSTANTS
   Cons <- LeafCons
   Terms = {"semi"}
-  MaxE = 2
+  MaxE = 1
   MaxS = 1
   MaxX = 1
-  MaxStack = 3
+  MaxP = 1
+  MaxL = 1
+  MaxTop = 1
 CHECK_DEADLOCK FALSE
